@@ -15,8 +15,8 @@ MANIFEST = dict(
          "text is the event's bytes with the terminator added iff missing (fast, slow and multi-line paths; "
          "write_colored_matches writes exactly the line); DecimalFormatter round-trips for every u64; base64_standard "
          "round-trips for every byte string (unbounded); Data is text iff utf8_valid; a JSON submatch is the slice of "
-         "`lines` at its offsets; a file's messages are begin, matches/contexts in stream order, end, and their "
-         "`lines` concatenate to the delivered bytes. Tie to the code: extracted models vs the real printers on "
+         "`lines` at its offsets; a file's messages are begin, one match/context message per delivered event in "
+         "stream order carrying that event's bytes, line number and offset, then end. Tie to the code: extracted models vs the real printers on "
          "generated cases; independent oracle: every printed record of rg / the library printers is re-located in the "
          "input bytes (line number, offset, column via an independent regex engine, text), JSON re-assembled.",
     note="trusted: Coq kernel, extraction, OCaml driver, Rust harness, Python re as independent matcher for the column "
@@ -119,6 +119,10 @@ def check_standard_full(ctx, c, out, v, where):
     """mode `full`: f:lnum:col:off:text for matches, f-lnum-off-text for context lines, `--` between groups"""
     fl = c["flags"]
     if not fl.get("line_number"):
+        return
+    if fl.get("invert") and fl.get("multiline"):
+        # whether an inverted context line carries a column depends on matches that include its terminator; the
+        # record cannot be parsed unambiguously here (the JSON oracle and the model still cover these cases)
         return
     files = {p: split_lines(d) for p, d in c["files"]}
     rx = py_regex(c)
@@ -431,7 +435,7 @@ def run(ctx):
                        "non-trivial = some configuration printed something; distinct by case text")
     run_batch(ctx, corpus(), cli_every=1)
     n = ctx.count(1200)
-    run_batch(ctx, [gen_case(rng) for _ in range(n)], cli_every=max(1, n // 80))
+    run_batch(ctx, [gen_case(rng) for _ in range(n)], cli_every=max(1, n // ctx.count(80)))
     # Data::from_bytes / base64 / DecimalFormatter: model = code = independent oracle
     from props import C10
     C10.check_small_models(ctx)
